@@ -134,12 +134,12 @@ def generators(quick):
                 ("CfgGen_wide_quick.cfg", "wide", c18.G_VAR[:3] + c18.G_FIXED[:2], "one", None, 3),
                 ("CfgSim.cfg", "sim", c18.G_VAR, "one", "num=60", 1),
                 ("CfgSimD.cfg", "simd", c18.G_DELAY, "one", "num=60", 1)]
-    return [("CfgGen_unit.cfg", "unit", c18.G_DELAY + c18.G_FIXED + c18.G_VAR[:2], "all", None, 1),
-            ("CfgGen_var.cfg", "var", c18.G_VAR, "all", None, 1),
+    return [("CfgGen_unit.cfg", "unit", c18.G_DELAY + c18.G_FIXED + c18.G_VAR[:2], "one", None, 1),
+            ("CfgGen_var.cfg", "var", c18.G_VAR, "one", None, 1),
             ("CfgGen_links.cfg", "links", allh, "one", None, 1),
             ("CfgGen_wide.cfg", "wide", c18.G_VAR[:3] + c18.G_FIXED[:2], "one", None, 1),
-            ("CfgSim.cfg", "sim", c18.G_VAR, "one", "num=1500", 1),
-            ("CfgSimD.cfg", "simd", c18.G_DELAY, "one", "num=1500", 1)]
+            ("CfgSim.cfg", "sim", c18.G_VAR, "one", "num=600", 1),
+            ("CfgSimD.cfg", "simd", c18.G_DELAY, "one", "num=600", 1)]
 
 
 def sweep_jobs(ctx, quick):
